@@ -17,7 +17,7 @@ def gen(rng: random.Random, tier: str):
             for i in rng.sample(range(8, 12), rng.choice([0, 0, 1, 2])): truth[i] = rng.randint(1, 10) / 2
             lists.append({"user": 10 + u, "run": rng.choice(["a", "b"]), "items": items, "preds": preds, "truth": [[i, r] for i, r in truth.items()],
                           "has_test": rng.random() < 0.85, "test_empty": rng.random() < 0.12})
-        yield {"lists": lists, "metric": rng.choice(["rmse", "mae"]), "two_level_key": rng.random() < 0.5,
+        yield {"lists": lists, "metric": rng.choice(["rmse", "mae"]), "two_level_key": rng.random() < 0.5, "test_key_swapped": rng.random() < 0.3,
                "ms": rng.choice(["ignore", "ignore", "ignore", "error"]), "mt": rng.choice(["ignore", "ignore", "ignore", "error"])}
 
 def _norm(case):
@@ -35,7 +35,9 @@ def run(case: dict, lean: Lean) -> Outcome:
     case = _norm(dict(case, lists=[dict(l) for l in case["lists"]]))
     sq = case["metric"] == "rmse"; cls = RMSE if sq else MAE
     two = case["two_level_key"]
-    out = ItemListCollection(["user_id", "run"] if two else ["user_id"]); test = ItemListCollection(["user_id"])
+    swapped = bool(two and case.get("test_key_swapped"))          # the test collection carries the same two fields, in the other order: projection is by name
+    out = ItemListCollection(["user_id", "run"] if two else ["user_id"]); test = ItemListCollection(["run", "user_id"] if swapped else ["user_id"])
+    tlookup = (lambda l: test.lookup(l["run"], l["user"])) if swapped else (lambda l: test.lookup(l["user"]))
     used = []; seen_keys = set(); seen_users = set(); tl = {}
     for l in case["lists"]:
         key = (l["user"], l["run"]) if two else (l["user"],)
@@ -44,13 +46,16 @@ def run(case: dict, lean: Lean) -> Outcome:
         out.add(ItemList(item_ids=np.array(l["items"], dtype=np.int64), scores=np.array([np.nan if p is None else p for p in l["preds"]], dtype=np.float64), ordered=True), *key)
         if l["has_test"] and l["user"] not in seen_users:
             tr = [] if l["test_empty"] else l["truth"]
-            test.add(ItemList(item_ids=np.array([i for i, _ in tr], dtype=np.int64), rating=np.array([r for _, r in tr], dtype=np.float64)), l["user"])
+            for tk in ([("a", l["user"]), ("b", l["user"])] if swapped else [(l["user"],)]):
+                test.add(ItemList(item_ids=np.array([i for i, _ in tr], dtype=np.int64), rating=np.array([r for _, r in tr], dtype=np.float64)), *tk)
             tl[l["user"]] = dict((i, r) for i, r in tr)
         seen_users.add(l["user"])
     have_test = set(tl)
     metric = cls(missing_scores=case["ms"], missing_truth=case["mt"]); rec = Recall(2)
     def custom(recs, test_l): return float(len(recs) * 10 + len(test_l))          # a list-wise function metric with a value for every pair of lists
     ra = RunAnalysis(); ra.add_metric(metric); ra.add_metric(rec); ra.add_metric(ListLength()); ra.add_metric(TestItemCount()); ra.add_metric(custom, "custom", default=-1.0)
+    # …and the prediction metric once more with an explicitly requested default of 0 (its own is "none"): zero is a default like any other
+    ra.add_metric(cls(missing_scores=case["ms"], missing_truth=case["mt"]), "zero-default", default=0.0)
     # aligned pairs (outer join) for the model, lists with test data in output order
     usable = [l for l in used if l["user"] in have_test]
     mlists = []
@@ -62,6 +67,7 @@ def run(case: dict, lean: Lean) -> Outcome:
     failed = []; key = None; keys = []
     classes = [case["metric"]]
     if two: classes.append("projected key")
+    if swapped: classes.append("test keys with the same fields in another order")
     if any(p is None for l in used for p in l["preds"]): classes.append("missing predictions")
     if any(set(l["items"]) - set(tl.get(l["user"], {})) for l in usable): classes.append("scored item without truth")
     if any(set(tl.get(l["user"], {})) - set(l["items"]) for l in usable): classes.append("rated item not scored")
@@ -105,7 +111,7 @@ def run(case: dict, lean: Lean) -> Outcome:
             if l["user"] in have_test:
                 try:
                     with np.errstate(all="ignore"):
-                        want = fn(out.lookup(*((l["user"], l["run"]) if two else (l["user"],))), test.lookup(l["user"]))
+                        want = fn(out.lookup(*((l["user"], l["run"]) if two else (l["user"],))), tlookup(l))
                 except Exception as e:
                     failed.append(f"{col} for key {k}: the metric's own measure_list raises {type(e).__name__}")
                     if col == mname and not sq and isinstance(e, AttributeError): keys.append("MAE.measure_list raises AttributeError when no pair is usable")
@@ -117,6 +123,7 @@ def run(case: dict, lean: Lean) -> Outcome:
     for l in used:
         k = (l["user"], l["run"]) if two else l["user"]
         if l["user"] not in have_test and float(lmf.loc[k, "custom"]) != -1.0: failed.append(f"default not substituted for key {k}")
+        if l["user"] not in have_test and not (float(lmf.loc[k, "zero-default"]) == 0.0): failed.append(f"explicit default 0 not substituted for key {k}")
     for col in (rname, "N", "custom"):
         c = lmf[col].astype(float)
         for stat, want in (("mean", c.mean()), ("median", c.median()), ("std", c.std())):
